@@ -930,6 +930,13 @@ fn process_write_batch(
             .extend(delete_operations.drain(..));
     }
 
+    // The device lock is taken before the extents are allocated and is held until they
+    // are written: a retired extent that two batches split between them must never be
+    // visible with its later part rewritten while its first blocks still carry the old
+    // markers, whose remaining count recovery would trust. Device -> free space is the
+    // order every other path already uses.
+    let mut allocation_disk_guard = (!prepared_writes.is_empty()).then(|| disk_io.write());
+
     if !prepared_writes.is_empty() {
         let mut free_space_guard = free_space.write();
         for index in 0..prepared_writes.len() {
@@ -972,7 +979,9 @@ fn process_write_batch(
     }
 
     if !batch_writes.is_empty() {
-        let mut disk_guard = disk_io.write();
+        let mut disk_guard = allocation_disk_guard
+            .take()
+            .expect("device lock is held since the allocation");
         for write in &prepared_writes {
             mark_reservation_dirty(&write.entry);
         }
